@@ -177,7 +177,8 @@ func debugSetMetatable(L *LState) int {
 	obj := L.Get(1)
 	mt := L.Get(2)
 	L.SetMetatable(obj, mt)
-	L.SetTop(1)
+	// ldblib.c db_setmetatable: lua_pushboolean(L, lua_setmetatable(L, 1)) — returns true
+	L.Push(LTrue)
 	return 1
 }
 
